@@ -117,32 +117,20 @@ func (req *request) Marshal(buf []byte) ([]byte, error) {
 func (req *request) Unmarshal(data []byte) (uint64, error) {
 	var offset uint64
 	var n uint64
-	n = code.DecodeVarint(data[offset:], &req.Seq)
-	offset += n
-	if data[offset] > 127 {
-		n = code.DecodeBytes(data[offset:], &req.Upgrade)
-	} else if data[offset] > 0 {
-		var s = 1 + uint64(data[offset])
-		req.Upgrade = data[offset+1 : offset+s]
-		n = s
-	} else {
-		n = 1
+	if req.Seq, n = decodeVarint(data); n == 0 {
+		return 0, errMalformed
 	}
 	offset += n
-	if data[offset] > 0 {
-		n = code.DecodeString(data[offset:], &req.ServiceMethod)
-	} else {
-		n = 1
+	if req.Upgrade, n = decodeBytes(data[offset:]); n == 0 {
+		return 0, errMalformed
 	}
 	offset += n
-	if data[offset] > 127 {
-		n = code.DecodeBytes(data[offset:], &req.Args)
-	} else if data[offset] > 0 {
-		var s = 1 + uint64(data[offset])
-		req.Args = data[offset+1 : offset+s]
-		n = s
-	} else {
-		n = 1
+	if req.ServiceMethod, n = decodeString(data[offset:]); n == 0 {
+		return 0, errMalformed
+	}
+	offset += n
+	if req.Args, n = decodeBytes(data[offset:]); n == 0 {
+		return 0, errMalformed
 	}
 	offset += n
 	return offset, nil
@@ -232,22 +220,16 @@ func (res *response) Marshal(buf []byte) ([]byte, error) {
 func (res *response) Unmarshal(data []byte) (uint64, error) {
 	var offset uint64
 	var n uint64
-	n = code.DecodeVarint(data[offset:], &res.Seq)
-	offset += n
-	if data[offset] > 0 {
-		n = code.DecodeString(data[offset:], &res.Error)
-	} else {
-		n = 1
+	if res.Seq, n = decodeVarint(data); n == 0 {
+		return 0, errMalformed
 	}
 	offset += n
-	if data[offset] > 127 {
-		n = code.DecodeBytes(data[offset:], &res.Reply)
-	} else if data[offset] > 0 {
-		var s = 1 + uint64(data[offset])
-		res.Reply = data[offset+1 : offset+s]
-		n = s
-	} else {
-		n = 1
+	if res.Error, n = decodeString(data[offset:]); n == 0 {
+		return 0, errMalformed
+	}
+	offset += n
+	if res.Reply, n = decodeBytes(data[offset:]); n == 0 {
+		return 0, errMalformed
 	}
 	offset += n
 	return offset, nil
